@@ -19,6 +19,17 @@ def gen_triples(ctx, run):
     return sorted(t)
 
 
+def gen_tagged(run):
+    """Recorded versions carrying a pre-release or build tag, with what SemVer precedence says about them: the core triple decides
+    unless it equals the running one, where a pre-release is older and build metadata is ignored (so both load)."""
+    a, b, c = run
+    out = []
+    for core in [(a, b, c), (a, b, c + 1), (a, b, max(0, c - 1)), (a, b + 1, 0), (a + 1, 0, 0), (a, b, 10 * c + 1)]:
+        for tag in ["-rc.1", "-alpha", "-0.3.7", "-rc.1+build.5", "+build.5", "+20260101", "-x.7.z.92"]:
+            out.append((".".join(map(str, core)) + tag, "refused" if core > (a, b, c) else "loads"))
+    return out
+
+
 def run(ctx):
     broken = []
     tr = pygen.regenerate(REPO, COQ / "Generated", only=["GenVersion"])
@@ -37,7 +48,16 @@ def run(ctx):
     triples = gen_triples(ctx, running)
     rng = ctx.rng
     rjobs = [{"dataset": iterlib.gen_dataset(rng, fmt=rng.choice(["fb", "npz"]), min_shards=2, max_sessions=3)} for _ in range(ctx.scale(3, 25))]
-    res = common.run_impl("relocate_run.py", {"describe": {"seed": ctx.seed * 7919 + 1, "n": ctx.scale(40, 400)}, "relocate": rjobs, "versions": triples}, timeout=2400)
+    rjobs[0]["dataset"]["algs"] = []          # a dataset that records no checksums at all
+    if len(rjobs) > 3:
+        rjobs[3]["dataset"]["algs"] = ["md5", "sha512"]
+    tagged = gen_tagged(running)
+    res = common.run_impl("relocate_run.py", {"describe": {"seed": ctx.seed * 7919 + 1, "n": ctx.scale(40, 400)}, "relocate": rjobs, "versions": triples + [v for v, _ in tagged]}, timeout=2400)
+    tagged_out = res["versions"]["outcomes"][len(triples):]
+    res["versions"]["outcomes"] = res["versions"]["outcomes"][:len(triples)]
+    for (v, want), o in zip(tagged, tagged_out):
+        if o != want:
+            ctx.report("version-gate-wrong-tagged", f"dataset recorded by {v}, running {res['versions']['running']}: {o}, expected {want} (SemVer precedence)", {"mode": "tagged", "version": v, "want": want})
     # 1. oracles on the implementation
     for i, d in enumerate(res["describe"]):
         for p in d["problems"]:
@@ -90,7 +110,7 @@ def run(ctx):
         "rule": "descriptions: unicode/control/long text, nested JSON custom metadata at dataset, attribute and shard level (big ints, extreme floats, null, lists, maps), all formats x compressions x 0..4 algorithms; "
                 "relocation: copy/move to nested, unicode (also not NFC-normalised), blank-containing, oddly named, relative, '..'-relative locations, then open/check/iterate/continue writing, compared with the original; "
                 "versions: triples around the running version incl. multi-digit components",
-        "descriptions": len(res["describe"]), "relocations": sum(len(r.get("cases", [])) for r in res["relocate"]), "version_triples": len(triples),
+        "descriptions": len(res["describe"]), "relocations": sum(len(r.get("cases", [])) for r in res["relocate"]), "version_triples": len(triples), "tagged_versions": len(tagged),
         "model_vs_impl_disagreements": dis, "traces_validated_against_impl": len(triples) - dis,
     })
 
@@ -102,6 +122,10 @@ def replay(ctx, rp):
         rv = tuple(int(x) for x in res["running"].split("."))
         print(res)
         return res["outcomes"][0] == ("refused" if tuple(r["triple"]) > rv else "loads")
+    if r.get("mode") == "tagged":
+        res = common.run_impl("relocate_run.py", {"versions": [r["version"]]})["versions"]
+        print(res)
+        return res["outcomes"][0] == r["want"]
     if r.get("mode") == "relocate":
         res = common.run_impl("relocate_run.py", {"relocate": [r["job"]]})["relocate"][0]
         print(json.dumps(res)[:2000])
